@@ -144,7 +144,10 @@ class DefaultEvaluatorStep(PlanStep):
 
         assert results
         assert isinstance(results[0], FunctionResults)
-        if results[0].functions is None:
+        if any(
+            isinstance(item, FunctionResults) and item.functions is None
+            for item in results
+        ):
             exit_code = OptimizerExitCode.TOO_FEW_REALIZATIONS
 
         if metadata is not None:
